@@ -687,6 +687,53 @@ func c15RawServer(res *lp.Result, s c15Scn) {
 			viol("request read by the raw peer differs from what the client sent", t, want)
 		}
 	}
+	// (1b) a burst: several requests of tens of kilobytes enqueued one after the other while the peer reads nothing, so that they
+	// wait in the outgoing queue TOGETHER; then the peer reads whatever segments come (one envelope per segment or several) and
+	// must find every request, whole and in order
+	{
+		var burst []*frame.Frame
+		for k := 0; k < 5; k++ {
+			f := bigQuery(s.version, int16(500+k), 30000+rng.Intn(65000), rng)
+			if _, err := clientConn.Send(f); err != nil {
+				viol("client refuses to send a version-valid request while others are queued", err.Error(), "")
+				return
+			}
+			burst = append(burst, f)
+		}
+		got := 0
+		deadline := time.Now().Add(10 * time.Second)
+		for got < len(burst) && time.Now().Before(deadline) {
+			conn.SetReadDeadline(time.Now().Add(5 * time.Second))
+			seg, err := readRawSegment(conn, lz)
+			if err != nil {
+				viol(fmt.Sprintf("of %d requests queued together only %d reach the peer: the bytes that follow are not a well-formed v5 segment", len(burst), got), err.Error(), "")
+				return
+			}
+			if !seg.selfContained {
+				viol("client sends an envelope that fits one segment in a non-self-contained segment", "", "")
+				return
+			}
+			rd := bytes.NewReader(seg.payload)
+			for rd.Len() > 0 && got < len(burst) {
+				f, err := rawCodec.DecodeFrame(rd)
+				if err != nil {
+					viol("segment sent by the client does not hold well-formed envelopes", err.Error(), "")
+					return
+				}
+				if t, want := wireText(f), wireText(burst[got]); t != want {
+					viol(fmt.Sprintf("request %d of a burst read by the raw peer differs from what the client sent", got+1), t, want)
+					return
+				}
+				got++
+				res.Count("frames/client-to-raw-burst")
+			}
+		}
+		conn.SetReadDeadline(time.Time{})
+		if got < len(burst) {
+			viol(fmt.Sprintf("of %d requests queued together only %d reach the peer", len(burst), got), "", "")
+			return
+		}
+	}
 	expect := func(what string, r client.InFlightRequest, w *frame.Frame) bool {
 		var got *frame.Frame
 		var err error
